@@ -66,11 +66,16 @@ def cases(tier, seed):
             out.append(('LSML_Supervised/%s/%s' % (dsn, pr), ('sup', dsn, pr, b['K'], seed)))
     # many features in units of ~60 with the prior that follows them: |log det M| is beyond the range of exp()
     out.append(('LSML/100_features/covariance', ('highdim', 'H100', 'covariance', 'none', 'mixed', 0, seed)))
+    # SPD array priors with ONE nearly irrelevant direction (eigenvalue 1e-6 / 1e-10 / 1e-12 next to O(1) ones) and quadruplets
+    # that all hold under the prior: the only clause judged is "the prior is returned" (robust: no step of the grid can improve
+    # on the minimiser, whatever rounding does to the gradient norm)
+    for dsn in b['datasets']:
+        out.append(('LSML/%s/array_one_small_direction/sat' % dsn, ('illsat', dsn, seed)))
     return out
 
 
 def cost(spec):
-    return 30 if spec[0] == "highdim" else (3 if spec[2] != "identity" else 2)
+    return 30 if spec[0] == "highdim" else (1 if spec[0] == "illsat" else (3 if spec[2] != "identity" else 2))
 
 
 def judge(site, M, M0, M0inv, vab, vcd, wn, tol, n_iter, max_iter, f_prior, tr, viol):
@@ -133,6 +138,46 @@ def run_case(spec):
             sigs.add(('highdim', mi, est.n_iter_))
         return dict(evals=evals, sigs=sigs, viol=viol, states=states, transitions=trans, headroom={'gradient_norm_over_tol': head},
                     sample={'learner': 'LSML', 'features': d, 'points': n, 'quadruplets': len(Q), 'prior': 'covariance', 'budgets': [1, 3, 3000]})
+    if spec[0] == 'illsat':
+        _, dsn, seed = spec
+        ds = data.dataset('R', seed) if dsn == 'R' else data.dataset(dsn)
+        d = ds.d
+        _, P = np.linalg.eigh(data.spd(d))
+        site = 'LSML.fit'
+        for small in (1e-6, 1e-10, 1e-12):
+            lam = np.concatenate([[small], np.linspace(0.5, 2.0, d - 1)])
+            M0 = (P * lam).dot(P.T)
+            M0 = (M0 + M0.T) / 2
+            Q = ds.quads.copy()
+            vab, vcd = Q[:, 0] - Q[:, 1], Q[:, 2] - Q[:, 3]
+            dab = np.einsum('ij,jk,ik->i', vab, M0, vab)
+            dcd = np.einsum('ij,jk,ik->i', vcd, M0, vcd)
+            sw = dab > dcd
+            Q[sw] = Q[sw][:, [2, 3, 0, 1]]
+            lo, hi = np.minimum(dab, dcd), np.maximum(dab, dcd)
+            Q = Q[lo * (1 + 1e-6) < hi]                 # clear margin only
+            for wk in ('none', 'ramp'):
+                w = make_weights(wk, len(Q))
+                tr = ['array_one_small_direction', 'eig=%g' % small, wk, 'sat']
+                for order in ('C', 'F'):
+                    est = ml.LSML(prior=np.array(M0, order=order), tol=1e-3, max_iter=50)
+                    try:
+                        est.fit(Q.copy(), weights=w)
+                    except Exception as e:
+                        viol.append(V(site, 'raises', 'fit raised %s: %s' % (type(e).__name__, str(e)[:120]), tr))
+                        continue
+                    evals += 1
+                    states += 1
+                    trans += 1
+                    M = est.get_mahalanobis_matrix()
+                    dev = np.abs(M - M0).max() / np.abs(M0).max()
+                    head = max(head, dev / 1e-6)
+                    if not dev <= 1e-6:
+                        viol.append(V(site, 'prior_not_returned', 'every constraint holds under the SPD prior (condition number %.1e) but the '
+                                      'learned matrix differs from it (relative %.3g, n_iter_=%d)' % (lam.max() / small, dev, est.n_iter_), tr))
+                    sigs.add(('illsat', dsn, small, wk, order, est.n_iter_))
+        return dict(evals=evals, sigs=sigs, viol=viol, states=states, transitions=trans, headroom={'prior_deviation_over_1e-6': head},
+                    sample={'learner': 'LSML', 'dataset': dsn, 'prior': 'SPD array, one eigenvalue in {1e-6, 1e-10, 1e-12}', 'quadruplets': 'sat'})
     if spec[0] == 'lsml':
         _, dsn, pr, wk, qs, K, seed = spec
         ds = data.dataset('R', seed) if dsn == 'R' else data.dataset(dsn)
